@@ -48,6 +48,8 @@ def covers(rule, ev, vars_):
         return False
     k, f = rule['kind'], rule['f']
     cls, op = m.get('class', ''), m.get('operation', '')
+    if not cls and op in ('signal', 'ptrace', 'mount'):
+        cls = op            # kernels that write no class= field: the operation names the kind
     if cls == 'cap' or op == 'capable':
         return k == 'capability' and m['capname'] in f[0]
     if cls == 'net':
